@@ -434,6 +434,193 @@ fn case_strategy() -> impl Strategy<Value = Case> {
 
 /// The directed representative of the known lost-wakeup shape: A checks the version and stops just
 /// before `subscribe`; B installs a change and notifies; A subscribes and waits for ever.
+
+//------------------------------------------------------------------------------------------
+// Contended version check (real threads, no scheduler)
+
+/// The request arrives while the history lock is contended: the harness holds a read guard and a
+/// writer that installs nothing (`mark_update_start` / `mark_update_done`) is queued behind it.
+/// Under the controlled scheduler a lock is never observed as held (no yield points inside
+/// critical sections), so this shape needs real blocking threads.
+#[derive(Serialize, Deserialize, Clone, Debug)]
+pub struct ContCase {
+    pub keep: usize,
+    pub pre: Vec<u8>,
+    pub presented: Presented,
+    pub head: bool,
+    /// 0 = read guard held + `mark_update_start` queued, 1 = read guard held only,
+    /// 2 = read guard held + `mark_update_start; mark_update_done` queued
+    pub holder: u8,
+    /// how long the guard is held after the request thread was started (milliseconds)
+    pub hold_ms: u8,
+}
+
+enum PMsg {
+    /// everything else is quiet: poll as often as woken, then report
+    Quiesce,
+    Finish,
+}
+
+fn contended(world: &World<'_>, case: &ContCase, info: &mut CaseInfo) -> Verdict {
+    use std::sync::mpsc::channel;
+    use std::time::{Duration, Instant};
+    if case.pre.is_empty() || case.pre.len() > 4 {
+        return Verdict::Dropped("case_out_of_domain".into());
+    }
+    let inst = Inst::new(world.config(case.keep), world.fx.engine.clone());
+    let all: Vec<MSet> = case.pre.iter().map(|i| set_of(*i)).collect();
+    let model = Model::new(&all);
+    {
+        let mut n = inst.notify.clone();
+        for (i, id) in case.pre.iter().enumerate() {
+            if !inst.process_once(&mut n, &set_of(*id), i == 0) {
+                return Verdict::Dropped("pre_run_failed".into());
+            }
+        }
+    }
+    let session = inst.session();
+    let serial = model.serial(case.pre.len());
+    let presented: Option<(u64, u32)> = match case.presented {
+        Presented::Current => Some((session, serial)),
+        Presented::Behind(k) => Some((session, serial.wrapping_sub(k))),
+        Presented::Ahead(k) => Some((session, serial.wrapping_add(k))),
+        Presented::OtherSession => Some((session ^ 1, serial)),
+        Presented::NoQuery => None,
+    };
+    let differs = presented != Some((session, serial));
+    let uri = match presented {
+        Some((s, n)) => format!("/json-delta/notify?session={}&serial={}", s, n),
+        None => "/json-delta/notify".to_string(),
+    };
+    info.class(format!("contended/holder={}", case.holder));
+    info.class(format!("contended/presented={}", match case.presented {
+        Presented::Current => "current",
+        Presented::Behind(_) => "behind",
+        Presented::Ahead(_) => "ahead",
+        Presented::OtherSession => "other-session",
+        Presented::NoQuery => "none",
+    }));
+
+    let guard = inst.history.read();
+    let writer = if case.holder != 1 {
+        let (h, both) = (inst.history.clone(), case.holder == 2);
+        Some(std::thread::spawn(move || {
+            h.mark_update_start();
+            if both {
+                h.mark_update_done();
+            }
+        }))
+    } else {
+        None
+    };
+    // let the writer queue up behind the guard (strength of the case only, not soundness)
+    std::thread::sleep(Duration::from_millis(10));
+    let (to_p, p_rx) = channel::<PMsg>();
+    let (p_tx, from_p) = channel::<(bool, usize, usize, Option<u16>, Vec<u8>, Instant)>();
+    let poller = {
+        let (inst, uri, head) = (inst.clone(), uri.clone(), case.head);
+        std::thread::spawn(move || {
+            let handler = inst.handler.clone();
+            let headers: Vec<(String, String)> = Vec::new();
+            let mut task = Task::new(handler.request(if head { "HEAD" } else { "GET" }, &uri, &headers));
+            let started = Instant::now();
+            let mut done = task.poll();
+            while let Ok(msg) = p_rx.recv() {
+                match msg {
+                    PMsg::Quiesce => {
+                        // the wake-ups of everything that happened so far have been delivered
+                        while !done && task.woken() {
+                            done = task.poll();
+                        }
+                        let (status, body) = match task.result.as_ref() {
+                            Some(r) => (Some(r.status), r.body()),
+                            None => (None, Vec::new()),
+                        };
+                        let _ = p_tx.send((done, task.polls, task.wakes(), status, body, started));
+                    }
+                    PMsg::Finish => break,
+                }
+            }
+        })
+    };
+    std::thread::sleep(Duration::from_millis(case.hold_ms as u64));
+    let dropped_at = Instant::now();
+    drop(guard);
+    if let Some(w) = writer {
+        if w.join().is_err() {
+            return Verdict::fail("C17/thread-panic", "writer thread panicked".to_string());
+        }
+    }
+    // The writer is through; give the request thread's first poll (blocked on the lock at most)
+    // time to return before asking. Asking early is harmless: Quiesce is only handled after the
+    // first poll returned.
+    let _ = to_p.send(PMsg::Quiesce);
+    let Ok((ready, polls, wakes, status, body, started)) = from_p.recv() else {
+        return Verdict::fail("C17/thread-panic", "request thread ended without a report".to_string());
+    };
+    info.nt(started < dropped_at && case.holder != 1);
+    let finish = |v: Verdict| {
+        let _ = to_p.send(PMsg::Finish);
+        v
+    };
+    if differs {
+        if !ready {
+            let _ = to_p.send(PMsg::Finish);
+            let _ = poller.join();
+            return Verdict::fail(
+                "C17/lost-wakeup/contended-version-check",
+                format!("request {} arrived while the history lock was contended (holder kind {}); served version ({}, {}) differs from the presented one, nothing else happens any more, and the request is still pending after {} polls / {} wake-ups", uri, case.holder, session, serial, polls, wakes),
+            );
+        }
+        if status != Some(200) {
+            return finish(Verdict::fail("C17/unexpected-status", format!("{}: status {:?}", uri, status)));
+        }
+        if !case.head {
+            let want = format!("{{\"session\":{},\"serial\":{}}}", session, serial);
+            let got: String = String::from_utf8_lossy(&body).chars().filter(|c| !c.is_whitespace()).collect();
+            if got != want {
+                return finish(Verdict::fail("C17/answer-names-other-version", format!("{}: body {:?}, served {}", uri, got, want)));
+            }
+        }
+        info.class("contended/answered-at-once");
+    } else {
+        if ready {
+            return finish(Verdict::fail("C17/answered-without-change", format!("{}: answered with {:?} although the presented version is the served one and nothing changed", uri, status)));
+        }
+        // now a real change: the request must complete
+        let mut n = inst.notify.clone();
+        let next = set_of(case.pre.last().copied().unwrap_or(0) ^ 0x0F);
+        if !inst.process_once(&mut n, &next, false) {
+            return finish(Verdict::Dropped("post_run_failed".into()));
+        }
+        let _ = to_p.send(PMsg::Quiesce);
+        let Ok((ready, polls, wakes, _, _, _)) = from_p.recv() else {
+            return Verdict::fail("C17/thread-panic", "request thread ended without a report".to_string());
+        };
+        if !ready && next != set_of(*case.pre.last().unwrap()) {
+            let _ = to_p.send(PMsg::Finish);
+            let _ = poller.join();
+            return Verdict::fail("C17/lost-wakeup/contended-version-check", format!("{}: a change was installed and notified after the request had arrived under lock contention, still pending after {} polls / {} wake-ups", uri, polls, wakes));
+        }
+        info.class("contended/answered-after-change");
+    }
+    let _ = to_p.send(PMsg::Finish);
+    let _ = poller.join();
+    Verdict::Pass
+}
+
+fn contended_cases() -> Vec<ContCase> {
+    let mut v = Vec::new();
+    for holder in [0u8, 2, 1] {
+        for head in [false, true] {
+            for presented in [Presented::Behind(1), Presented::OtherSession, Presented::Ahead(1), Presented::NoQuery, Presented::Current, Presented::Behind(2)] {
+                v.push(ContCase { keep: 10, pre: vec![1, 3], presented, head, holder, hold_ms: 20 });
+            }
+        }
+    }
+    v
+}
+
 fn directed_known() -> Case {
     let mut choices = vec![0u8, 0];
     choices.extend(std::iter::repeat(1u8).take(40));
@@ -441,7 +628,7 @@ fn directed_known() -> Case {
 }
 
 pub fn run(ctx: &Ctx, rep: &mut Report, replay: Option<&serde_json::Value>) {
-    rep.rule("thread A polls GET/HEAD /json-delta/notify[?session&serial] through the real dispatcher by hand (first poll, then only after its waker fired); thread B performs 1-3 Server::process_once calls over an engine without TALs (data sets carried by local exceptions, changing or repeating), 0-3 calls were made sequentially before; presented version: current / 1-2 behind / 1-2 ahead / other session / none; the schedule interleaves A's steps (version check, notify.after_need_wait = just before subscribe, body read) with B's (mark_update_start, update read, install, mark_update_done, process_once.before_notify = just before notify): (dfs) every schedule of 9 programs (13 thorough) enumerated, (sched) generated programs with generated choice strings; oracle at quiescence (B done, A re-polled once per wake-up): the request completed if the presented version differed from the served one on arrival or a change was installed after arrival; a completed GET names (session, serial) served after arrival; non-trivial = a version change is installed between A's version check and A's subscribe; distinct by program+schedule");
+    rep.rule("thread A polls GET/HEAD /json-delta/notify[?session&serial] through the real dispatcher by hand (first poll, then only after its waker fired); thread B performs 1-3 Server::process_once calls over an engine without TALs (data sets carried by local exceptions, changing or repeating), 0-3 calls were made sequentially before; presented version: current / 1-2 behind / 1-2 ahead / other session / none; the schedule interleaves A's steps (version check, notify.after_need_wait = just before subscribe, body read) with B's (mark_update_start, update read, install, mark_update_done, process_once.before_notify = just before notify): (dfs) every schedule of 9 programs (13 thorough) enumerated, (sched) generated programs with generated choice strings; oracle at quiescence (B done, A re-polled once per wake-up): the request completed if the presented version differed from the served one on arrival or a change was installed after arrival; a completed GET names (session, serial) served after arrival; non-trivial = a version change is installed between A's version check and A's subscribe; distinct by program+schedule; (contended) 36 enumerated cases on real blocking threads: the request arrives while the harness holds a history read guard and a writer that changes nothing (mark_update_start / + mark_update_done) is queued behind it, presented version behind / ahead / other session / none / current, GET and HEAD: a differing version must be answered once the lock is released although nothing else ever happens, the current one must stay pending and complete after a later change");
     rep.assume("one controlled thread runs at a time (sequentially consistent interleavings at the granularity of the yield points); the executor model is: a pending task is polled again only after its waker was invoked");
     rep.assume("the engine has no TALs, so a validation run takes about a millisecond and the served data set is exactly the local exceptions of the call");
     let fx = Fixture::new(ctx);
@@ -450,9 +637,15 @@ pub fn run(ctx: &Ctx, rep: &mut Report, replay: Option<&serde_json::Value>) {
         world.configs.insert(k, Arc::new(fx.config(k)));
     }
     if let Some(v) = replay {
-        let t: Tagged<Case> = serde_json::from_value(v.clone()).expect("replay");
+        let t: Tagged<serde_json::Value> = serde_json::from_value(v.clone()).expect("replay");
+        if t.sub == "contended" {
+            let c: ContCase = serde_json::from_value(t.case).expect("case");
+            run_case(ctx, rep, "contended", &c, |c, i| contended(&world, c, i));
+            return;
+        }
+        let case: Case = serde_json::from_value(t.case).expect("case");
         DIRECTED.with(|d| d.set(true));
-        run_case(ctx, rep, "sched", &t.case, |c, i| prop_sched(&world, c, i));
+        run_case(ctx, rep, "sched", &case, |c, i| prop_sched(&world, c, i));
         return;
     }
     // one directed representative of the known shape (prints KNOWN-FINDING while it reproduces)
@@ -470,5 +663,18 @@ pub fn run(ctx: &Ctx, rep: &mut Report, replay: Option<&serde_json::Value>) {
         return;
     }
     run_prop(ctx, rep, "sched", ctx.tier.pick(15_000, 120_000), case_strategy(), |c, i| prop_sched(&world, c, i));
+    if rep.violated() {
+        flush_excluded(rep);
+        return;
+    }
+    for round in 0..ctx.tier.pick(1u8, 6) {
+        for mut c in contended_cases() {
+            c.hold_ms = 20 + round * 7;
+            run_case(ctx, rep, "contended", &c, |c, i| contended(&world, c, i));
+            if rep.violated() {
+                break;
+            }
+        }
+    }
     flush_excluded(rep);
 }
